@@ -499,6 +499,17 @@ Section Facts.
     destruct r as [r|]; reflexivity.
   Qed.
 
+  (* progress: with all required headers mined the model does not go idle, and conversely *)
+  Theorem idle_only_when_headers_missing : forall h e L w,
+      w_plen w = Some L -> in_domain e L = true ->
+      (snd (step (SPLen h e) w) = Some (RNext NIdle) <-> h < last_req e L).
+  Proof.
+    intros h e L w Hw Hd. destruct (domain_exact _ _ Hd) as (_ & _ & D3 & _).
+    cbn [Model.C43.step]. rewrite Hw, D3. destruct (last_req e L <=? h) eqn:E; cbn [snd].
+    - apply Z.leb_le in E. split; [discriminate|lia].
+    - apply Z.leb_gt in E. split; [intros _; exact E|reflexivity].
+  Qed.
+
   (* ---------------- the model waits for the relay ---------------- *)
   Lemma timeline_length : forall ws st, length (timeline st ws) = length ws.
   Proof.
